@@ -10,6 +10,7 @@ import (
 
 	abci "github.com/cometbft/cometbft/abci/types"
 
+	ibc "github.com/cosmos/ibc-go/v11/modules/core"
 	clienttypes "github.com/cosmos/ibc-go/v11/modules/core/02-client/types"
 	channeltypes "github.com/cosmos/ibc-go/v11/modules/core/04-channel/types"
 	channeltypesv2 "github.com/cosmos/ibc-go/v11/modules/core/04-channel/v2/types"
@@ -143,6 +144,7 @@ func (w *World) Exec(a Action) (res string, errStr string) {
 	if a.Ack != nil && a.Pkt != nil {
 		w.registerAck(a.Pkt.Proto, a.Ack)
 	}
+	delete(w.reexport, c)
 	defer func() {
 		w.afterBlock(c, w.now)
 		w.flush(c, res == "ok", full)
@@ -233,6 +235,9 @@ func (w *World) Exec(a Action) (res string, errStr string) {
 		key := hostv2.PacketReceiptKey(p.DestinationClient, p.Sequence)
 		proof, ph := w.proofAt(cp(c), key, i64(a.Ph))
 		return w.sendTx(c, channeltypesv2.NewMsgTimeout(p, proof, ph, w.signer(c)))
+
+	case "ExportImport":
+		return w.exportImport(c)
 
 	case "CloseInit":
 		return w.sendTx(c, channeltypes.NewMsgChannelCloseInit(w.ep[c].ChannelConfig.PortID, w.ep[c].ChannelID, w.signer(c)))
@@ -344,4 +349,41 @@ func (w *World) freeze(c string) (string, string) {
 		return "err", err.Error()
 	}
 	return w.sendTx(c, msg)
+}
+
+// exportImport exports the IBC module's genesis, deletes every key of its store and initialises the module from
+// the export, on the same chain (everything else untouched so that relaying continues), then commits a block.
+func (w *World) exportImport(c string) (res string, errStr string) {
+	chain := w.ch[c]
+	defer func() {
+		if r := recover(); r != nil {
+			res, errStr = "panic", fmt.Sprint(r)
+			chain.NextBlock()
+		}
+	}()
+	base := chain.GetContext()
+	ctx, write := base.CacheContext() // a panic half-way must not leave a half-initialised store behind
+	k := chain.App.GetIBCKeeper()
+	gs := ibc.ExportGenesis(ctx, *k)
+	bz1 := chain.App.AppCodec().MustMarshalJSON(gs)
+	store := ctx.KVStore(chain.GetSimApp().GetKey(exported.StoreKey))
+	var keys [][]byte
+	it := store.Iterator(nil, nil)
+	for ; it.Valid(); it.Next() {
+		keys = append(keys, append([]byte{}, it.Key()...))
+	}
+	it.Close()
+	for _, key := range keys {
+		store.Delete(key)
+	}
+	ibc.InitGenesis(ctx, *k, gs)
+	bz2 := chain.App.AppCodec().MustMarshalJSON(ibc.ExportGenesis(ctx, *k))
+	if string(bz1) == string(bz2) {
+		w.reexport[c] = "same"
+	} else {
+		w.reexport[c] = "differs"
+	}
+	write()
+	chain.NextBlock()
+	return "ok", ""
 }
